@@ -4,6 +4,7 @@ package c14
 import (
 	"fmt"
 	"math/big"
+	"runtime"
 	"strconv"
 	"testing"
 
@@ -312,6 +313,89 @@ func genHuge(t *rapid.T) HugeCase {
 var propHuge = stats.Prop(R, "huge", genHuge, checkHuge)
 
 func TestHuge(t *testing.T) { rapid.Check(t, propHuge) }
+
+// Neighbour writer: while the field is extracted again and again, another goroutine keeps rewriting
+// every byte of the buffer that holds no bit of the field (the tail of a receive buffer being filled).
+// Extraction must not touch those bytes: the values stay right and, under the race detector, no read
+// of a byte outside the field's bytes may be seen.
+type NeighbourCase struct {
+	Case   Case `json:"field"`
+	Rounds int  `json:"rounds"`
+}
+
+func checkNeighbour(nc NeighbourCase, o *stats.Obs) error {
+	c := nc.Case
+	buf, pos, w := append([]byte{}, c.Buf...), c.Pos, c.Width
+	if w < 1 || w > 64 || pos < 0 || pos+w > len(buf)*8 {
+		o.Skip = true
+		return nil
+	}
+	first, last := pos/8, (pos+w-1)/8
+	wantU := u64(ref.Bits(buf, pos, w))
+	var wantS int64
+	if w >= 2 {
+		wantS = ref.SignedBits(buf, pos, w).Int64()
+	}
+	stop := make(chan struct{})
+	done := make(chan struct{})
+	go func() {
+		defer close(done)
+		for x := byte(1); ; x += 7 {
+			for i := range buf {
+				if i < first || i > last {
+					buf[i] = x + byte(i)
+				}
+			}
+			select {
+			case <-stop:
+				return
+			default:
+				runtime.Gosched()
+			}
+		}
+	}()
+	var err error
+	for r := 0; r < nc.Rounds && err == nil; r++ {
+		if got := utils.GetBitsAsUint64(buf, uint(pos), uint(w)); got != wantU {
+			err = fmt.Errorf("GetBitsAsUint64(pos %d, width %d) = %#x, want %#x, while bytes outside the field's bytes %d..%d were being rewritten", pos, w, got, wantU, first, last)
+		}
+		if w >= 2 {
+			if got := utils.GetBitsAsInt64(buf, uint(pos), uint(w)); got != wantS {
+				err = fmt.Errorf("GetBitsAsInt64(pos %d, width %d) = %d, want %d, while bytes outside the field's bytes %d..%d were being rewritten", pos, w, got, wantS, first, last)
+			}
+		}
+		if r%8 == 0 {
+			runtime.Gosched()
+		}
+	}
+	close(stop)
+	<-done
+	if err != nil {
+		o.Key = "neighbour-writer"
+		return err
+	}
+	o.NonTrivial = first > 0 || last < len(buf)-1
+	if last < len(buf)-1 {
+		o.Class("bytes-after-the-field-rewritten")
+	}
+	if first > 0 {
+		o.Class("bytes-before-the-field-rewritten")
+	}
+	return nil
+}
+
+func genNeighbour(t *rapid.T) NeighbourCase {
+	c := gen(t)
+	// room behind (and in front of) the field
+	extra := rapid.IntRange(0, 16).Draw(t, "extraBytes")
+	c.Buf = append(c.Buf, make([]byte, extra)...)
+	c.Flip = nil
+	return NeighbourCase{Case: c, Rounds: rapid.SampledFrom([]int{20, 200}).Draw(t, "rounds")}
+}
+
+var propNeighbour = stats.Prop(R, "neighbour-writer", genNeighbour, checkNeighbour)
+
+func TestNeighbourWriter(t *testing.T) { rapid.Check(t, propNeighbour) }
 
 func TestReplay(t *testing.T) { R.Replay(t) }
 
